@@ -19,6 +19,10 @@ impl<'a> WireFormat<'a> for AAAA {
     where
         Self: Sized,
     {
+        if *position + 16 > data.len() {
+            return Err(crate::SimpleDnsError::InsufficientData);
+        }
+
         let address = u128::from_be_bytes(data[*position..*position + 16].try_into()?);
         *position += 16;
         Ok(Self { address })
